@@ -297,7 +297,11 @@ def gen_chain(g, n_target=None, force_worm=None, self_locking=None,
              'b': None, 'E': None}
         i = add(e)
         decls.append({'op': 'joint', 'm': prev, 's': i})
-    redecl = [d for d in decls if d['op'] == 'gear']
+    # (only pairs without a module: the stale mating role that a fixed
+    # joint leaves on a former mating pair - section 7, observations - must
+    # not meet the stress computations of a later re-mating phase)
+    redecl = [d for d in decls if d['op'] == 'gear'
+              and els[d['m']].get('m') is None and els[d['s']].get('m') is None]
     if redecl and not allow_reroute and g.chance(0.08):
         # the same pair declared as a mating, then rigidly joined, then as a
         # mating again (what counts is the last declaration)
@@ -2046,7 +2050,7 @@ def gen_conv(g):
                    'unit': g.unit('TimeInterval')}
     if via_rule:
         scn['rules'] = [{'kind': 'ConstantPWM', 'start': g.q('Time', 0.0),
-                         'duration': g.q('TimeInterval', 1e9),
+                         'duration': g.q('TimeInterval', 1e30),
                          'value': D}]
         scn['init']['pwm'] = r.choice([None, 1, D])
     scn['schedule'] = []
